@@ -22,6 +22,15 @@ def main():
     allchecks = '--all-checks' in sys.argv
     names = args or sorted(d for d in os.listdir(os.path.join(VERIF, 'seeded')) if os.path.isdir(os.path.join(VERIF, 'seeded', d)))
     out_path = os.path.join(VERIF, 'reports', 'seeded_matrix.json')
+    for a in sys.argv[1:]:
+        if a.startswith('--out='):
+            out_path = a.split('=', 1)[1]       # a second concurrent evaluation must write elsewhere; merge with --merge=
+        if a.startswith('--merge='):
+            m = json.load(open(out_path)) if os.path.exists(out_path) else {}
+            m.update(json.load(open(a.split('=', 1)[1])))
+            json.dump(m, open(out_path, 'w'), indent=1)
+            print('merged into', out_path)
+            return
     matrix = json.load(open(out_path)) if os.path.exists(out_path) else {}
     for name in names:
         sd = os.path.join(VERIF, 'seeded', name)
